@@ -34,10 +34,17 @@ package manager
 //@ func field Manager.reset (name)
 //@   effect inSession := upd(inSession, name, false)
 //@   effect resetsN := upd(resetsN, name, resetsN[name] + 1)
+// updatesN / syncsN: update and sync callbacks per name; lastUpdateMsg: the notification of the latest update callback.
+//@ ghost updatesN gmap[string]int
+//@ ghost syncsN gmap[string]int
+//@ ghost lastUpdateMsg *gpb.Notification
 //@ func field Manager.update (name, n)
 //@   requires [update-only-inside-a-session C13] inSession[name]
+//@   effect updatesN := upd(updatesN, name, updatesN[name] + 1)
+//@   effect lastUpdateMsg := n
 //@ func field Manager.sync (name)
 //@   requires [sync-only-inside-a-session C13] inSession[name]
+//@   effect syncsN := upd(syncsN, name, syncsN[name] + 1)
 //@ func field Manager.testSync
 //@ func field Manager.connectError (name, err)
 //@ func field Manager.monitorError (name, err)
@@ -47,6 +54,12 @@ package manager
 //@   props C13 C12
 //@   requires Callbacks(m) && resp != nil && inSession[name]
 //@   requires resp.Response != nil ==> payload(resp.Response) != nil
+//@   modifies ghost updatesN, ghost syncsN, ghost lastUpdateMsg
+//@   ensures [every-update-is-handed-on C13] isa(resp.Response.(*gpb.SubscribeResponse_Update)) ==> res0 == nil && updatesN == upd(old(updatesN), name, old(updatesN[name]) + 1)
+//@     && lastUpdateMsg == resp.Response.(*gpb.SubscribeResponse_Update).Update && syncsN == old(syncsN)
+//@   ensures [every-sync-is-handed-on C13] isa(resp.Response.(*gpb.SubscribeResponse_SyncResponse)) ==> res0 == nil && syncsN == upd(old(syncsN), name, old(syncsN[name]) + 1) && updatesN == old(updatesN)
+//@   ensures [anything-else-is-an-error-and-not-handed-on C13] !isa(resp.Response.(*gpb.SubscribeResponse_Update)) && !isa(resp.Response.(*gpb.SubscribeResponse_SyncResponse))
+//@     ==> res0 != nil && updatesN == old(updatesN) && syncsN == old(syncsN)
 
 // One stream: Connect exactly once, after the first message; every message is
 // handed on inside the session, in stream order; the stream ends only with an error
@@ -54,11 +67,13 @@ package manager
 //@ func (*Manager).handleUpdates
 //@   props C13 C12
 //@   requires Callbacks(m) && ta != nil && sc != nil && ctx != nil && !inSession[ta.name]
-//@   modifies ghost inSession, ghost connectsN, ghost resetsN, ghost sendTimerArmed, ghost armedTimers, ghost streamRecvs
+//@   modifies ghost inSession, ghost connectsN, ghost resetsN, ghost sendTimerArmed, ghost armedTimers, ghost streamRecvs, ghost updatesN, ghost syncsN, ghost lastUpdateMsg
 //@   invariant 0: streamRecvs >= old(streamRecvs) && resetsN == old(resetsN) && inSession[ta.name] == connected && connectsN[ta.name] == old(connectsN[ta.name]) + ite(connected, 1, 0)
 //@     && (forall k string :: k != ta.name ==> inSession[k] == old(inSession[k]) && connectsN[k] == old(connectsN[k]))
 //@   invariant 0: [receive-timeout-runs-only-while-receiving C13] (recvTimer != nil <==> ta.receiveTimeout > 0) && (recvTimer != nil ==> !has(armedTimers, recvTimer))
 //@     && spawns() == old(spawns()) + ite(ta.receiveTimeout > 0, 1, 0)
+//@   invariant 0: [every-received-message-is-handled-once C13] hits("call (*Manager).handleGNMIUpdate#0") - old(hits("call (*Manager).handleGNMIUpdate#0")) == streamRecvs - old(streamRecvs)
+//@   assert at call (*Manager).handleGNMIUpdate#0: [each-message-handed-on-as-received C13] arg1 == ta.name && arg2 == resp
 //@   assert at call BidiStreamingClient.Recv#0: [receive-timeout-armed-while-receiving C13] recvTimer != nil ==> has(armedTimers, recvTimer)
 //@   ensures [one-watchdog-iff-a-receive-timeout-is-configured C13] spawns() == old(spawns()) + ite(ta.receiveTimeout > 0, 1, 0)
 //@   assert at call field Manager.connect#0: [connect-only-after-the-first-message C13] streamRecvs > old(streamRecvs)
@@ -75,7 +90,7 @@ package manager
 //@ func (*Manager).subscribe
 //@   props C13 C12
 //@   requires Callbacks(m) && ta != nil && ctx != nil && !inSession[ta.name] && subscribeClient != nil
-//@   modifies ghost inSession, ghost connectsN, ghost resetsN, ghost sendTimerArmed, ghost armedTimers, ghost streamRecvs
+//@   modifies ghost inSession, ghost connectsN, ghost resetsN, ghost sendTimerArmed, ghost armedTimers, ghost streamRecvs, ghost updatesN, ghost syncsN, ghost lastUpdateMsg
 //@   ensures [session-closed-on-return C13] !inSession[ta.name]
 //@   ensures [other-targets-untouched C13] forall k string :: k != ta.name ==> inSession[k] == old(inSession[k])
 
@@ -105,6 +120,8 @@ package manager
 //@   assert at go (*Manager).retryMonitor#0: [one-monitor-per-new-record C13] wheld(m.mu) && !old(has(m.targets, name)) && m.targets[name] == ta && fresh(ta) && !closed(ta.finished)
 //@   ensures [duplicate-refused C13] old(has(m.targets, name)) ==> res0 != nil && m.targets[name] == old(m.targets[name]) && spawns() == old(spawns())
 //@   ensures [bad-arguments-refused C13] name == "" || sr == nil ==> res0 != nil && spawns() == old(spawns())
+//@   ensures [no-addresses-refused C13] t == nil || len(t.Addresses) == 0 ==> res0 != nil && spawns() == old(spawns())
+//@   ensures [a-new-target-with-addresses-is-accepted C13] name != "" && sr != nil && t != nil && len(t.Addresses) > 0 && !old(has(m.targets, name)) ==> res0 == nil
 //@   ensures [added C13] res0 == nil ==> has(m.targets, name) && m.targets[name] != nil && m.targets[name].name == name && spawns() == old(spawns()) + 1
 //@   ensures [others-kept C13] forall k string :: k != name ==> (has(m.targets, k) <==> old(has(m.targets, k))) && m.targets[k] == old(m.targets[k])
 
@@ -161,7 +178,7 @@ package manager
 //@ func (*Manager).monitor
 //@   props C13 C12 C16
 //@   requires Wired(m) && ta != nil && ctx != nil && !inSession[ta.name]
-//@   modifies ghost inSession, ghost connectsN, ghost resetsN, ghost sendTimerArmed, ghost armedTimers, ghost streamRecvs
+//@   modifies ghost inSession, ghost connectsN, ghost resetsN, ghost sendTimerArmed, ghost armedTimers, ghost streamRecvs, ghost updatesN, ghost syncsN, ghost lastUpdateMsg
 //@   ensures [session-closed-on-return C13] !inSession[ta.name]
 //@   ensures [other-targets-untouched C13] forall k string :: k != ta.name ==> inSession[k] == old(inSession[k])
 // The release function createConn hands on (a connection manager's done function).
@@ -181,7 +198,7 @@ package manager
 //@   props C13 C12
 //@   requires Wired(m) && ta != nil && ctx != nil && !inSession[ta.name]
 //@   requires ta.finished != nil && !closed(ta.finished) && !isctxdone(ta.finished)
-//@   modifies ghost inSession, ghost connectsN, ghost resetsN, ghost sendTimerArmed, ghost armedTimers, ghost streamRecvs, closed(ta.finished), ghost boResets, ghost lastSince, ghost boMark, ghost meMark
+//@   modifies ghost inSession, ghost connectsN, ghost resetsN, ghost sendTimerArmed, ghost armedTimers, ghost streamRecvs, ghost updatesN, ghost syncsN, ghost lastUpdateMsg, closed(ta.finished), ghost boResets, ghost lastSince, ghost boMark, ghost meMark
 //@   invariant 0: [attempts-start-and-end-outside-a-session C13] !inSession[ta.name] && !closed(ta.finished) && sCtx != nil && timer != nil
 //@     && (forall k string :: k != ta.name ==> inSession[k] == old(inSession[k]))
 //@   invariant 0: [retries-never-give-up-and-back-off-as-configured C13] e != nil && e.MaxElapsedTime == 0 && e.InitialInterval == RetryBaseDelay && e.MaxInterval == RetryMaxDelay
